@@ -13,3 +13,5 @@ import WmModel.Props.C10SelfClose
 #print axioms Wm.RouterLife.cancel_winds_handlers_down
 #print axioms Wm.RouterLife.runhandlers_nil_means_all_started
 #print axioms Wm.RouterLife.runhandlers_error_is_retried
+#print axioms Wm.RouterLife.other_handlers_keep_dispatching
+#print axioms Wm.RouterLife.loop_tail_waits_for_nobody
